@@ -20,18 +20,6 @@ import ChessVerif.Gen.Eval
 
 namespace ChessVerif.TunerVector
 
-/-- The versions of the walkers of vector.go this hand model was written against (auxiliary alarm). -/
-theorem modelled_against : Gen.Eval.tunerFingerprints = [
-  ("tuning.EngineRep.Eval", "be6c417cd802a612"),
-  ("tuning.EngineCoeffs", "cdfcb4739e913dcd"),
-  ("tuning.convert", "c4da054d459aaa1a"),
-  ("tuning.EngineRep.ToVector", "6e4f2f608b64d368"),
-  ("tuning.getFieldFloats", "5b547173f5ad6177"),
-  ("tuning.EngineRep.SetVector", "7c3c2b2e59c8783a"),
-  ("tuning.setFieldFloats", "a1424cb82b97e5fd"),
-  ("tuning.EngineRep.TunedParams", "75eeb1976ff72de6"),
-  ("tuning.yieldFields", "060dcefad033fd35")
-] := by decide
 
 /-- a reflected value of kind Array (`node`) or Float64 / Int16 (`leaf`). -/
 inductive Tree (α : Type) where
